@@ -249,6 +249,10 @@ def check(pid, tier):
             mc_must_pass(run, tlc_mc(run, "MC_Lease", "MC_Lease_quick.cfg", workers=12, timeout=900, coverage=True, tag="mccov"))
         else:
             mc_must_pass(run, tlc_mc(run, "MC_Lease", "MC_Lease_quick.cfg", workers=8, timeout=600, coverage=False))
+        svc = {}
+        if pid == "C20":
+            import http_rig
+            svc = http_rig.c20_http(run, pid)
         nontrivial = sum(1 for s in scen if sum(1 for st in s["steps"] if st["k"] == "msg") >= 3 and
                          len({st["c"] for st in s["steps"] if st["k"] == "msg"}) >= 2)
         distinct = len({scen_hash(s["steps"]) for s in scen})
@@ -263,6 +267,7 @@ def check(pid, tier):
             "step_counters": allstats,
             "enforced_predicate": LEVEL_TEXT[pid],
             "harness_build_s": round(bt, 1),
+            "service_level": svc,
             "exhaustive": False,
         }
         rc = finish(run, "model_checking", cov, [
@@ -270,7 +275,7 @@ def check(pid, tier):
             "the harness reads the lease table with its own SQL through Pool::verif_conn and advances time by shifting stored timestamps; t0/t1 around each call are logged and predicates take the end of the interval that demands less of the code",
             "client identity is computed by the harness from what it put on the wire (client-id option if present, else hardware address)",
             "level pkt uses configurations loaded by the real YAML loader (apply-range + reservations carving holes)",
-        ])
+        ] + (["service level (C20): real DhcpService + http::run in a private namespace; leases created by DHCP exchanges over a veth pair (client identifiers and host names of arbitrary octets, 0..255 long), rows left by other histories inserted through the harness's own SQLite connection (NULL / empty / unparsable option blobs), expiry by ageing the rows; the listing is parsed by serde_json and compared row by row, the gauges are read from /metrics; judged by LeaseHttpTrace"] if pid == "C20" else []))
     except ToolError as e:
         log("TOOL-ERROR: %s" % e)
         return 2
